@@ -523,6 +523,9 @@ class Symx:
             a = [self.sym(x, st) for x in args]
             return Function('F:' + self.lv_name(fnv), real=True)(*a)
         short = q.split('::')[-1]
+        if q in ('std::numeric_limits<double>::epsilon', 'std::numeric_limits<float>::epsilon') and not args:
+            # the spacing of the floating-point numbers at 1 (the same value a DBL_EPSILON literal gives)
+            return sp.Float(2.220446049250313e-16 if 'double' in q else 1.1920929e-07)
         if q in ('std::' + short, short) or q.startswith('std::') and short in ('min', 'max', 'swap', 'isnan', 'isinf', 'pow', 'copysign', 'frexp', 'ldexp'):
             if short in self.MATH1 and len(args) == 1:
                 return self.MATH1[short](self.sym(args[0], st))
